@@ -324,6 +324,14 @@ def finish(prop, tier, seed, t0, level, m, rule, assumptions, min_nontrivial=2, 
           f"{len(known_sigs)} known findings seen, {nviol} new violations, {n_incon} inconclusive, {wall:.1f}s")
     if nviol:
         return 1
+    # a required observation point that was never reached means the monitor saw nothing there
+    required = {"C05": ["path.paren.flat", "path.paren.hang"], "C08": ["others_compared"], "C09": ["regions_compared"],
+                "C04": ["string_literals_rewritten", "number_literals_judged"], "C11": ["calls_judged", "headers_judged", "strings_judged"],
+                "C12": ["groups.sorted-group", "groups.ignored-member"]}.get(prop, [])
+    missing = [k for k in required if not m.get("counters", {}).get(k)]
+    if missing:
+        print(f"HARNESS-ERROR property={prop}: required observation points never reached: {missing}", file=sys.stderr)
+        return 3
     if coverage["evaluations"] < 1 or distinct < min_nontrivial:
         print(f"HARNESS-ERROR property={prop}: monitors observed nothing non-trivial", file=sys.stderr)
         return 3
